@@ -23,7 +23,7 @@ func (prop) ID() string { return "C03" }
 
 func nGen(tier string) int {
 	if tier == "thorough" {
-		return 4000
+		return 2000
 	}
 	return 300
 }
